@@ -189,11 +189,16 @@ def e2(prog, ctx, L):
     points = []
     for (b, i, s) in cfg.edges():
         if b in body and b != L.header and s not in body:
+            if any(e.k == "BinaryOperator" and e.j.get("op") == "=" and e.children[1].strip().k == "DeclRefExpr"
+                   and e.children[1].strip().j.get("name") == "ECONF_NOMEM" for e in list(cfg.blocks[b].elems) + list(cfg.blocks[s].elems)):
+                continue    # the out-of-memory exit
             points.append((b, cfg.blocks[b].elems[-1] if cfg.blocks[b].elems else rec))
     for lhs, rhs, st in f.assignments():
         if isinstance(lhs, dict) or not st.within(L.loop):
             continue
         r = rhs.strip()
+        if r.k == "DeclRefExpr" and r.j.get("dk") == "enum" and r.j.get("name") == "ECONF_NOMEM":
+            continue        # running out of memory is not a finding about a line of the file
         if (r.k == "DeclRefExpr" and r.j.get("dk") == "enum" and r.j.get("val") != 0) or (r.k == "CallExpr" and r.j.get("callee") == parser.STORE):
             points.append((cfg.block_of(st), st))
     bad = [(b, n) for (b, n) in points if not cfg.dominates(recb[0], b)]
@@ -227,12 +232,24 @@ def e2(prog, ctx, L):
         else:
             ctx.fail("E2", "file name recorded before the first line", c.where, "source %s / not before the loop" % srcs, key="loc-file")
     # econf_errLocation hands out exactly these two
-    lsf = prog.fn("last_scanned_file")
     el = prog.fn("econf_errLocation")
-    ctx.touch(lsf, el)
-    reads = set(query.global_refs(lsf))
-    if {"last_scanned_line_nr", "last_scanned_filename"} <= reads and el.calls("last_scanned_file"):
-        ctx.ok("E2", "econf_errLocation returns the record", el.where, "copies of last_scanned_filename / last_scanned_line_nr")
+    ctx.touch(el)
+    # the record is read by econf_errLocation itself or by the internal helpers it calls (one helper with two out-parameters
+    # as confirmed, or one per part)
+    reads, seen, todo = set(), set(), [el]
+    while todo:
+        g = todo.pop()
+        if g.name in seen:
+            continue
+        seen.add(g.name)
+        ctx.touch(g)
+        reads |= set(query.global_refs(g))
+        for c in g.calls():
+            cn = c.j.get("callee")
+            if cn in prog.functions and cn not in prog.exports_names():
+                todo.append(prog.functions[cn])
+    if {"last_scanned_line_nr", "last_scanned_filename"} <= reads:
+        ctx.ok("E2", "econf_errLocation returns the record", el.where, "copies of last_scanned_filename / last_scanned_line_nr (read in %s)" % sorted(seen))
     else:
         ctx.fail("E2", "econf_errLocation returns the record", el.where, "reads %s" % sorted(reads), key="loc-getter")
 
@@ -241,6 +258,21 @@ def e5(prog, ctx):
     enum = prog.enum("econf_err")
     vals = [(c["name"], c["val"]) for c in enum["enumerators"]]
     g = prog.globals.get("messages")
+    if g is None:
+        # the table as a function-local static of econf_errString
+        from sa.facts import _subtree
+        from sa.ast import GlobalVar
+        es0 = prog.fn("econf_errString")
+        for n0 in es0.nodes:
+            if n0 is not None and n0.k == "DeclStmt":
+                for d0 in n0.j.get("decls", []):
+                    if d0.get("name") == "messages" and d0.get("static") and d0.get("init", -1) >= 0:
+                        j0 = dict(d0)
+                        j0["nodes"] = _subtree(es0.j["nodes"], d0["init"])
+                        j0["init"] = 0
+                        j0["is_def"] = True
+                        j0["file"] = es0.file
+                        g = GlobalVar(j0, es0.unit)
     if g is None:
         raise Inconclusive("messages[] vanished")
     msgs = g.init_strings()
@@ -288,6 +320,25 @@ def run(prog, ctx):
         if ob.rule == "G4":
             ob.rule = "E4"
     e5(prog, ctx)
+    # a malformed file can only be reported if it is parsed at all, and the location can only name the file the caller addressed
+    # if the name is kept as found: both are rules of C01 (L18, L16), imported under this property's ids
+    try:
+        from sa.report import Ctx as _Ctx
+        from rules import C01 as _C01
+        sub = _Ctx(ctx.prop, ctx.tier, prog)
+        _C01.l15_l17(prog, sub)
+        _C01.l18_l19(prog, sub)
+        for ob in sub.obs:
+            if ob.rule == "L16":
+                ob.rule = "E2"
+                ob.instance = "the location names the file as it was addressed: " + ob.instance
+                ctx.obs.append(ob)
+            elif ob.rule == "L18":
+                ob.rule = "E6"
+                ob.instance = "no candidate file escapes the syntax check: " + ob.instance
+                ctx.obs.append(ob)
+    except Inconclusive as e:
+        ctx.inconclusive("E6", "every candidate file is parsed / named as addressed", "", str(e))
     try:
         from rules import own_rules
         own_rules.c13_e3(prog, ctx)
